@@ -16,8 +16,61 @@ package clock
 //@   prop C17
 //@   requires 0 <= i && i < len(a) && 0 <= j && j < len(a)
 
+// ---------------------------------------------------------------------------
+// IClock (from its documentation): Until(t) returns a channel on which only values >= t are delivered;
+// After(d) one on which only values >= the clock's time at the call + d are delivered.  chanlb(ch) is the
+// ghost lower bound attached to a channel.
+
+//@ func IClock.Until
+//@   assumed
+//@   modifies nothing
+//@   flag emits none
+//@   flag allocs
+//@   ensures result != nil && chanlb(result) == arg0
+
+//@ func IClock.Now
+//@   assumed
+//@   modifies nothing
+//@   flag emits none
+
+//@ func IClock.After
+//@   assumed
+//@   modifies nothing
+//@   flag emits none
+//@   flag allocs
+//@   ensures result != nil
+
+// Mock implements the promise of Until: an already-due timer delivers `now` (>= t) at once; a future
+// one is registered with its due time and is served by lockedSet.
+//@ func (*Mock).Until
+//@   prop C13
+//@   ensures [fresh-buffered-channel] result != nil && fresh(result) && chancap(result) == 1
+//@   ensures [due-delivers-now] old(m.now) >= t ==> evlen == old(evlen) + 2 && isSend(ev(old(evlen))) && evch(ev(old(evlen))) == result &&
+//@             intval(evval(ev(old(evlen)))) == old(m.now) && isClose(ev(old(evlen) + 1)) && m.timers == old(m.timers)
+//@   ensures [future-is-registered] old(m.now) < t ==> evlen == old(evlen) && len(m.timers) == old(len(m.timers)) + 1 &&
+//@             m.timers[len(m.timers) - 1].Time == t && m.timers[len(m.timers) - 1].ch == result
+//@   ensures [never-early] forall p int :: old(evlen) <= p && p < evlen && isSend(ev(p)) ==> intval(evval(ev(p))) >= t
+//@   ensures m.now == old(m.now)
+
+//@ func (*Mock).Now
+//@   prop C13
+//@   modifies nothing
+//@   flag emits none
+//@   ensures result == m.now
+
+// lockedSet(t): every delivery carries t and goes to a registered timer that is due (never early); the
+// timers kept are exactly those not yet due; the clock reads t afterwards.
 //@ func (*Mock).lockedSet
 //@   prop C13 C17
 //@   flag entrylocks
 //@   requires held(mu(m.RWMutex)) == 2
+//@   requires m.changes != nil
 //@   ensures held(mu(m.RWMutex)) == 2
+//@   ensures [clock-set] m.now == t
+//@   ensures [kept-timers-not-due] forall a int :: off(m.timers) <= a && a < off(m.timers) + len(m.timers) ==> at(m.timers, a).Time > t
+//@   ensures [deliveries-carry-t] forall p int :: old(evlen) <= p && p < evlen && isSend(ev(p)) ==> intval(evval(ev(p))) == t
+//@   loop 1 range m.timers
+//@     invariant forall a int :: off(after) <= a && a < off(after) + len(after) ==> at(after, a).Time > t
+//@     invariant forall p int :: old(evlen) <= p && p < evlen && isSend(ev(p)) ==> intval(evval(ev(p))) == t
+//@     invariant forall p int :: old(evlen) <= p && p < evlen ==> isSend(ev(p))
+//@     invariant fresh(base(after)) && m.changes == old(m.changes)
